@@ -261,6 +261,11 @@ def run_instance(inst):
         if want != got:
             res["violations"].append(dict(what=f"the linked program's function table {sorted(got)} differs from the single-module program's {sorted(want)}", replay=dict(harness="C16", inst=inst, kind="table")))
             return res
+        # the command-line runner: nslr.py loads main.nslir from the scratch directory, links it (loading the imports) and runs f;
+        # its printed result on a few concrete argument lists must be the single-module program's (concrete gate)
+        nr = nslr_gate(tmp, prog, ref, b)
+        if nr:
+            res["violations"].append(dict(what=f"nslr.py run main.nslir f ... disagrees with the single-module program: {nr}", replay=dict(harness="C16", inst=inst, kind="nslr")))
         pre_inst = dict(inst, bounds=b.get("bounds", {}), small=True)
         r = diffcheck.check_pair(prog, "f", ref, first, harness="C16", inst=inst, extra_pre=famcheck.make_pre(pre_inst), label=("single-module", "linked"),
                                  replay_fn=lambda vals: replay(dict(inst=inst, kind="values", inputs=vals)))
@@ -273,6 +278,36 @@ def run_instance(inst):
     finally:
         shutil.rmtree(tmp, ignore_errors=True)
     return res
+
+
+def nslr_gate(tmp, prog, ref_linked, base):
+    """-> description of a disagreement or None.  Only scalar signatures can be passed on the command line."""
+    f = [x for x in prog.funcs if x.name == "f" and x.exported][0]
+    if any(t not in ("int", "float") for t, _ in f.params) or prog.globals:
+        return None
+    from nsl import VM
+    for k, vals in enumerate(([2, 3, 1], [0, 1, 2])):
+        args = {}
+        for (t, n), v in zip(f.params, vals):
+            if n in base.get("bounds", {}):
+                lo, hi = base["bounds"][n]
+                v = max(lo, min(hi, v))
+            args[n] = v if t == "int" else v + 0.5
+        r = subprocess.run([PY, os.path.join(core.REPO, "nslr.py"), "run", "main.nslir", "f"] + [str(args[n]) for _, n in f.params], cwd=tmp, capture_output=True, text=True, timeout=120,
+                           env=dict(os.environ, PYTHONPATH=core.REPO, PYTHONDONTWRITEBYTECODE="1"))
+        with contextlib.redirect_stdout(io.StringIO()):
+            want = VM.VirtualMachine(ref_linked).Invoke("f", **args)
+        line = [l for l in r.stdout.splitlines() if l.startswith("f (")]
+        if r.returncode != 0 or not line:
+            return dict(args=args, nslr_exit=r.returncode, output=(r.stdout + r.stderr)[-200:])
+        got = line[-1].split("=", 1)[1].strip()
+        try:
+            same = abs(float(got) - float(want)) <= 1e-9 * max(1.0, abs(float(want)))
+        except ValueError:
+            same = got == str(want)
+        if not same:
+            return dict(args=args, nslr=got, single_module=want)
+    return None
 
 
 DUPLICATES = {
